@@ -222,3 +222,45 @@ def claim_proof(ctx, prog):
                "True is returned only when the computed hash equals the supplied root and the name matches", key=f"C08-D4/GATE|{q}|root")
     r = [s for s in vp.stmts(ast.Assign) if any(dotted(t) == "previous_computed_hash" for t in s.targets) and not is_const(s.value, None)]
     ctx.ob("C08-D4/DEP", len(r) == 1 and unparse(r[0].value) == "double_sha256(to_hash)", vp.site(), "each trie level hashes the collected children/value bytes", func=q)
+    # every refusal of the legacy checker under its own condition, none narrowed by a test from elsewhere (C08-r7m3: the two closing checks made to depend on
+    # the takeover height being present, so an outpoint that was never hashed into the root is accepted)
+    OUT = "i == 0 and 'txhash' in proof and 'nOut' in proof and 'last takeover height' in proof"
+    table = [
+        ("child character not int", "child['character'] < 0 or child['character'] > 255"),
+        ("children not in increasing order", "previous_child_character and previous_child_character >= child['character']"),
+        ("invalid child nodeHash", "'nodeHash' in child and len(child['nodeHash']) != 64"),
+        ("previous computed hash is None", "'nodeHash' not in child and previous_computed_hash is None"),
+        ("already found the next child", "'nodeHash' not in child and found_child_in_chain is True"),
+        ("did not find the alleged child", "not found_child_in_chain and i != 0"),
+        ("txhash was invalid", OUT + " and len(proof['txhash']) != 64"),
+        ("nOut was invalid", OUT + " and not isinstance(proof['nOut'], int)"),
+        ("last takeover height was invalid", OUT + " and not isinstance(proof['last takeover height'], int)"),
+        ("valueHash was invalid", "'valueHash' in node and len(node['valueHash']) != 64"),
+        ("computed hash does not match roothash", "previous_computed_hash != binascii.unhexlify(root_hash)[::-1]"),
+        ("mismatch between proof claim and outcome", "'txhash' in proof and 'nOut' in proof and not verified_value"),
+        ("name did not match proof", "'txhash' in proof and 'nOut' in proof and name != target"),
+        ("name fragment does not match proof", "not name.startswith(target)"),
+    ]
+    R.refusal_table(ctx, "C08-D4/VALID", vp, table, "legacy claim-trie proof checker")
+    # the four closing checks decide acceptance: each is raised EXACTLY under its condition (what the earlier closing checks let through is implied)
+    ROOT = "not previous_computed_hash != binascii.unhexlify(root_hash)[::-1]"
+    closing = {
+        "computed hash does not match roothash": ("previous_computed_hash != binascii.unhexlify(root_hash)[::-1]", ()),
+        "mismatch between proof claim and outcome": ("'txhash' in proof and 'nOut' in proof and not verified_value and " + ROOT, ()),
+        "name did not match proof": ("'txhash' in proof and 'nOut' in proof and name != target and " + ROOT, ("verified_value",)),
+        "name fragment does not match proof": ("not name.startswith(target) and " + ROOT, ("verified_value", "'txhash' in proof", "'nOut' in proof", "name != target")),
+    }
+    for x, k in R.raise_kinds(vp):
+        for msg, (g, ign) in closing.items():
+            if msg in norm_text(x):
+                R.exact_gate(ctx, "C08-D4/VALID", vp, x, g, f"`{msg}` is raised exactly under its condition", ignore=ign, key=f"C08-D4/VALID|{q}|exact|{msg[:30]}")
+    sets = [s for s in vp.stmts(ast.Assign) if any(dotted(t) == "verified_value" for t in s.targets) and is_const(s.value, True)]
+    ok = len(sets) == 1 and vp.guarded(sets[0], OUT)[0]
+    ctx.ob("C08-D4/VALID", ok, vp.site(sets[0]) if sets else vp.site(), "the outpoint counts as verified only where it was hashed into the leaf (first node, all three fields present)", func=q,
+           key=f"C08-D4/VALID|{q}|verified")
+    if sets:
+        calls = [c for c in vp.calls(dotted_name="get_hash_for_outpoint")]
+        ok = len(calls) == 1 and [unparse(a) for a in calls[0].args] == ["binascii.unhexlify(proof['txhash'])[::-1]", "proof['nOut']", "proof['last takeover height']"] \
+            and vp.must_precede(sets[0], lambda n: n is calls[0]) is None
+        ctx.ob("C08-D4/VALID", ok, vp.site(sets[0]), "the leaf hash covers txhash (reversed), nOut and the takeover height of the proof, before the outpoint counts as verified", func=q,
+               key=f"C08-D4/VALID|{q}|leafhash")
